@@ -75,6 +75,8 @@ func init() {
 	register(&PropDef{
 		ID: "C09", Title: "I/O faults never hang and are never swallowed by the BGZF reader or writer", Level: "other",
 		Rules: append(append(writerRules("W1", "W2", "W3", "W5", "W7", "W8", "W9", "PATH-WAIT", "W6"), readerRules("R1", "R2", "R3", "R4", "R5", "R6")...),
+			RuleDef{Name: "LATCH-ONE", What: "Writer.Close reports and acts on the error state setErr records: a writer whose underlying writer failed does not return nil from Close (shared with C08)", Floor: 1, Run: ruleLatchOne},
+			RuleDef{Name: "FIELD-NEVER-SET", What: "every error field of package bgzf that is read is assigned a non-nil value somewhere: a failure that is recorded where nobody looks is swallowed (shared with C08)", Floor: 3, Run: ruleFieldNeverSet([]string{"bgzf"})},
 			RuleDef{Name: "ERR-1", What: "no error returned by a call in package bgzf is dropped (exemptions named)", Floor: 40, Run: ruleNoDroppedError([]string{"bgzf"}, errExempt)},
 			RuleDef{Name: "PATH-NEXTBLOCK", What: "a read-ahead result (error included) is reported only for the block whose base was expected", Floor: 1, Run: ruleNextBlock},
 			RuleDef{Name: "CUR-SEEKOFF", What: "a failed underlying Seek leaves the recorded offset where the stream still is (added after a blind second seed round)", Floor: 1, Run: ruleSeekOff},
